@@ -109,6 +109,17 @@ type Verdict struct {
 	Evals      int
 	Sample     any
 	Discard    string // non-empty: case not judged (counted)
+	Detail     string // free text kept with the first few discards of each kind
+}
+
+func sanitize(s string) string {
+	out := []byte(s)
+	for i, ch := range out {
+		if !(ch >= 'a' && ch <= 'z' || ch >= 'A' && ch <= 'Z' || ch >= '0' && ch <= '9' || ch == '-') {
+			out[i] = '_'
+		}
+	}
+	return string(out)
 }
 
 func hashOf(v any) string {
@@ -127,6 +138,11 @@ func (c *Ctx) record(cs any, v *Verdict) string {
 	}
 	if v.Discard != "" {
 		c.Rep.Discard(v.Discard)
+		if v.Detail != "" && c.Rep.Discards[v.Discard] <= 2 {
+			p := filepath.Join(c.Out, fmt.Sprintf("discard-%s-%d.json", sanitize(v.Discard), c.Rep.Discards[v.Discard]))
+			b, _ := json.MarshalIndent(map[string]any{"property": c.ID, "case": cs, "discard": v.Discard, "detail": v.Detail}, "", " ")
+			_ = os.WriteFile(p, b, 0o644)
+		}
 		return ""
 	}
 	if v.NonTrivial {
@@ -144,6 +160,17 @@ func (c *Ctx) record(cs any, v *Verdict) string {
 		return ""
 	}
 	n := c.seq.Add(1)
+	if os.Getenv("VERIF_SURVEY") != "" {
+		// survey mode (development aid): classify and continue instead of failing
+		key := "survey:" + v.Kind + " @ " + v.Site
+		c.Rep.Discard(key)
+		if c.Rep.Discards[key] == 1 {
+			p := filepath.Join(c.Out, fmt.Sprintf("survey-%d.json", n))
+			b, _ := json.MarshalIndent(map[string]any{"property": c.ID, "case": cs, "kind": v.Kind, "site": v.Site, "msg": v.Fail}, "", " ")
+			_ = os.WriteFile(p, b, 0o644)
+		}
+		return ""
+	}
 	path := filepath.Join(c.Out, "fail-last.json")
 	b, _ := json.MarshalIndent(map[string]any{"property": c.ID, "case": cs, "kind": v.Kind, "site": v.Site, "msg": v.Fail, "n": n}, "", " ")
 	_ = os.WriteFile(path, b, 0o644)
